@@ -89,6 +89,10 @@ _IPC_EOS = b"\xff\xff\xff\xff\x00\x00\x00\x00"
 _STREAM_OVERHEAD = 4096
 
 
+class _ShmSinkOverflowError(Exception):
+    """A write would run past the end of the region the sink was given."""
+
+
 def _has_dictionary_columns(schema: pa.Schema) -> bool:
     """Check if any top-level field uses dictionary encoding."""
     return any(pa.types.is_dictionary(f.type) for f in schema)
@@ -106,16 +110,22 @@ class _ShmSink(RawIOBase):
     (memoryview format ``'b'``, signed).  We cast to unsigned ``'B'``
     before writing to the SHM memoryview.
 
+    The sink owns exactly ``limit`` bytes starting at *start* (the size of
+    the allocation it writes into).  A write that does not fit is refused
+    with ``_ShmSinkOverflowError`` before any byte is copied, and every
+    later write is refused too, so nothing outside the region is touched.
+
     Inherits from ``RawIOBase`` to satisfy ``new_ipc_stream()`` type
     requirements.
     """
 
-    def __init__(self, buf: memoryview, start: int) -> None:
-        """Initialize targeting *buf* starting at byte offset *start*."""
+    def __init__(self, buf: memoryview, start: int, limit: int) -> None:
+        """Initialize targeting the *limit* bytes of *buf* starting at byte offset *start*."""
         super().__init__()
         self._buf = buf
         self._pos = start
         self._start = start
+        self._end = start + limit
 
     def write(self, data: bytes | bytearray | memoryview | pa.Buffer) -> int:  # type: ignore[override]  # ty: ignore[invalid-method-override]
         """Write *data* into the shared memory region."""
@@ -126,6 +136,9 @@ class _ShmSink(RawIOBase):
         else:
             mv = memoryview(data).cast("B") if data.format != "B" else data
         n = len(mv)
+        if n > self._end - self._pos:
+            self._end = self._pos  # refuse everything from here on
+            raise _ShmSinkOverflowError(f"write of {n} bytes does not fit in the shared memory allocation")
         self._buf[self._pos : self._pos + n] = mv
         self._pos += n
         return n
@@ -436,10 +449,17 @@ class ShmSegment:
             offset = self._allocator.allocate(estimated)
             if offset is None:
                 return None
-            sink = _ShmSink(shm_buf, offset)
-            writer = new_ipc_stream(sink, batch.schema)
-            writer.write_batch(batch)
-            writer.close()
+            sink = _ShmSink(shm_buf, offset, estimated)
+            try:
+                writer = new_ipc_stream(sink, batch.schema)
+                writer.write_batch(batch)
+                writer.close()
+            except _ShmSinkOverflowError:
+                # The estimate was too small (e.g. a schema message larger than
+                # _STREAM_OVERHEAD).  The sink kept the write inside the
+                # allocation; release it so the caller falls back to inline.
+                self._allocator.free(offset)
+                return None
             return offset, sink.bytes_written
 
         # Dict path: serialize to buffer, then copy
